@@ -419,6 +419,36 @@ func c17Carried(c *Ctx, r *Report, f *ssa.Function, l *natLoop, id, inScope stri
 			}
 		}
 	}
+	// (d) seen-sets: a map filled and consulted inside the loop is symmetric in the
+	// entries only if an entry is looked up under the very key it is stored under
+	ups := map[ssa.Value][]*ssa.MapUpdate{}
+	lks := map[ssa.Value][]*ssa.Lookup{}
+	for b := range l.blocks {
+		for _, in := range b.Instrs {
+			switch x := in.(type) {
+			case *ssa.MapUpdate:
+				ups[x.Map] = append(ups[x.Map], x)
+			case *ssa.Lookup:
+				if _, isMap := x.X.Type().Underlying().(*types.Map); isMap {
+					lks[x.X] = append(lks[x.X], x)
+				}
+			}
+		}
+	}
+	for m, us := range ups {
+		if mi, ok := m.(ssa.Instruction); ok && l.blocks[mi.Block()] {
+			continue // a map made afresh for each entry carries nothing over
+		}
+		for _, lk := range lks[m] {
+			for _, u := range us {
+				if lk.Index == u.Key || apath(lk.Index) == apath(u.Key) {
+					continue
+				}
+				bad++
+				r.Bad("carried-state", id+"|seen-set|"+apath(m), lk.Pos(), fmt.Sprintf("inside the loop over %s the map %s is consulted under the key %s but filled under the key %s: whether an entry is recognised depends on which entries came before it (e.g. duplicates differing in case are found in one order only)", inScope, apath(m), apath(lk.Index), apath(u.Key)))
+			}
+		}
+	}
 	// (c) helpers with more than one constant outcome among the early exits
 	sigs := map[string]bool{}
 	for _, ex := range exits {
